@@ -18,7 +18,13 @@ abbrev Spec3 := Nat × Nat × Nat
 
 structure Sel where
   spec : Spec3
+  /-- the complete selector matches the probe element -/
   ok : Bool
+  /-- (selector of a nested rule) it contains `&` -/
+  amp : Bool := false
+  /-- (selector of a nested rule without `&`) the selector as written, read as a top-level
+      selector, matches the probe element -/
+  bare : Bool := false
   deriving Repr, DecidableEq
 
 /-- one declaration of the probe property -/
